@@ -18,10 +18,10 @@ Proof.
   - destruct Hm as (_ & H2 & H3 & _). rewrite Hw in H2. simpl in H2. lia.
 Qed.
 
-Lemma no_leak_local h c x :
-  nth_error (ctxs (run init h)) c = Some x -> unreferenced x ->
+Lemma no_leak_local f h c x :
+  nth_error (ctxs (run (initf f) h)) c = Some x -> unreferenced x ->
   k_freed x = true /\ k_nfree x = 1 /\ k_nfdc x = 1 /\ k_fd x = false.
-Proof. intros H U. destruct (ctx_ok h c x H) as [C _]. apply cok_unreferenced_freed; assumption. Qed.
+Proof. intros H U. destruct (ctx_ok f h c x H) as [C _]. apply cok_unreferenced_freed; assumption. Qed.
 
 (* ------------------------------------------------------------------ *)
 (* where a context's position says it is, it is                         *)
@@ -118,7 +118,7 @@ Lemma loc_reg_wake : forall x ok y, l_reg_wake x ok = Some y -> k_loc x = LQueue
 Proof. intros x ok; revert x; destruct ok; loc_lemma l_reg_wake. Qed.
 Lemma loc_reg_acc : forall x ok y, l_reg_acc x ok = Some y -> k_loc x = LAccNew /\ k_loc y = (if ok then LRegNew else LAccFail).
 Proof. intros x ok; revert x; destruct ok; loc_lemma l_reg_acc. Qed.
-Lemma loc_announce : forall x n y, l_announce x n = Some y -> k_loc x = LRegNew /\ k_loc y = LReg.
+Lemma loc_announce : forall x n cb y, l_announce x n cb = Some y -> k_loc x = LRegNew /\ k_loc y = LReg.
 Proof. loc_lemma l_announce. Qed.
 Lemma loc_use : forall x y, l_use x = Some y -> k_loc y = k_loc x.
 Proof. loc_lemma l_use. Qed.
@@ -130,7 +130,7 @@ Lemma loc_shut : forall x y, l_shut x = Some y -> k_loc y = k_loc x.
 Proof. loc_lemma l_shut. Qed.
 Lemma loc_accepterr : forall x y, l_accepterr x = Some y -> k_loc y = k_loc x.
 Proof. loc_lemma l_accepterr. Qed.
-Lemma loc_close : forall x h y, l_close x h = Some y -> k_loc x = LReg /\ k_loc y = LRelDue.
+Lemma loc_close : forall x h cb y, l_close x h cb = Some y -> k_loc x = LReg /\ k_loc y = LRelDue.
 Proof. loc_lemma l_close. Qed.
 Lemma loc_clearpop : forall x y, l_clearpop x = Some y -> k_loc x = LReg /\ k_loc y = LRelDue.
 Proof. loc_lemma l_clearpop. Qed.
@@ -173,13 +173,13 @@ Ltac pose_loc :=
          | H : l_hand _ = Some _ |- _ => apply loc_hand in H; destruct H
          | H : l_reg_wake _ _ = Some _ |- _ => apply loc_reg_wake in H; destruct H
          | H : l_reg_acc _ _ = Some _ |- _ => apply loc_reg_acc in H; destruct H
-         | H : l_announce _ _ = Some _ |- _ => apply loc_announce in H; destruct H
+         | H : l_announce _ _ _ = Some _ |- _ => apply loc_announce in H; destruct H
          | H : l_use _ = Some _ |- _ => apply loc_use in H
          | H : l_rd _ _ = Some _ |- _ => apply loc_rd in H
          | H : l_eof _ _ = Some _ |- _ => apply loc_eof in H
          | H : l_shut _ = Some _ |- _ => apply loc_shut in H
          | H : l_accepterr _ = Some _ |- _ => apply loc_accepterr in H
-         | H : l_close _ _ = Some _ |- _ => apply loc_close in H; destruct H
+         | H : l_close _ _ _ = Some _ |- _ => apply loc_close in H; destruct H
          | H : l_clearpop _ = Some _ |- _ => apply loc_clearpop in H; destruct H
          | H : l_exitpop _ = Some _ |- _ => apply loc_exitpop in H; destruct H
          | H : l_release _ = Some _ |- _ => apply loc_release in H; destruct H
@@ -401,14 +401,22 @@ Proof.
   - (* wake unlock *) break H. split; simpl; norm_pc.
     + eapply Jw_lists; [exact HJ|..]; side; try (destruct (pc s); simpl in *; discriminate).
     + destruct (pc s); simpl in *; try discriminate; jp_tac.
+  - (* signal by a hand-over *) break H. split; simpl; assumption.
+  - (* signal by anyone *) inversion H; subst. split; simpl; assumption.
+  - (* clear-up *) break H. split; simpl; norm_pc.
+    + eapply Jw_lists; [exact HJ|..]; side; try (destruct (pc s); simpl in *; discriminate).
+    + destruct (pc s); simpl in *; try discriminate; jp_tac.
+  - (* sleep *) break H. split; assumption.
 Qed.
 
-Lemma init_J : J init.
+Lemma initf_J f : J (initf f).
 Proof.
   split; simpl.
   - intros c x H. destruct c; discriminate.
   - unfold Jp; simpl. repeat split; intros; try discriminate; auto; try (destruct H; discriminate).
 Qed.
+Lemma init_J : J init.
+Proof. apply initf_J. Qed.
 Lemma run_J h : forall s, J s -> J (run s h).
 Proof.
   induction h as [|e h IH]; intros s A; simpl; [assumption|]. apply IH. unfold run1.
@@ -416,11 +424,11 @@ Proof.
 Qed.
 
 (* once muggle_evloop_run has returned, the loop side holds no context *)
-Lemma loop_done_holds_nothing h c x :
-  let s := run init h in
+Lemma loop_done_holds_nothing f h c x :
+  let s := run (initf f) h in
   pc s = PDone -> nth_error (ctxs s) c = Some x -> k_loc x = LUser \/ k_loc x = LNone.
 Proof.
-  intros s Hp Hx. destruct (run_J h init init_J) as [HJ (P1 & P2 & P3 & _)]. fold s in HJ, P1, P2, P3.
+  intros s Hp Hx. destruct (run_J h (initf f) (initf_J f)) as [HJ (P1 & P2 & P3 & _)]. fold s in HJ, P1, P2, P3.
   rewrite Hp in *. simpl in *. specialize (P1 eq_refl). specialize (P2 eq_refl). specialize (P3 (or_intror eq_refl)).
   rewrite P1, P2, P3 in HJ. destruct (HJ c x Hx) as (A & B & C).
   destruct (k_loc x); auto; exfalso; simpl in *; try (specialize (C eq_refl); discriminate).
@@ -432,16 +440,16 @@ Qed.
 (* every context ever allocated (by the accept loop or handed over) has been closed and freed
    exactly once, once the loop has returned, the workers have released and done their release
    duty, and no context is still sitting with the user, never handed over *)
-Theorem no_leak_at_exit h :
-  let s := run init h in
+Theorem no_leak_at_exit f h :
+  let s := run (initf f) h in
   pc s = PDone ->
   (forall c x, nth_error (ctxs s) c = Some x -> k_loc x <> LUser /\ k_work x = 0 /\ k_wfin x = 0) ->
   forall c x, nth_error (ctxs s) c = Some x ->
     k_freed x = true /\ k_nfree x = 1 /\ k_nfdc x = 1 /\ k_fd x = false.
 Proof.
   intros s Hp Hall c x Hx. destruct (Hall c x Hx) as (Hu & Hw & Hf).
-  destruct (loop_done_holds_nothing h c x Hp Hx) as [L|L]; [contradiction|].
-  apply (no_leak_local h c x Hx). repeat split; assumption.
+  destruct (loop_done_holds_nothing f h c x Hp Hx) as [L|L]; [contradiction|].
+  apply (no_leak_local f h c x Hx). repeat split; assumption.
 Qed.
 
 Example no_leak_nonvacuous :
@@ -463,12 +471,12 @@ Qed.
    wake-up was handled (however many muggle_socket_evloop_add_ctx calls coalesced into this
    one wake-up) has been registered (and is announced) or, if its registration failed,
    released.  Holds for every history. *)
-Theorem queue_drained_per_wake h s' r :
-  step (run init h) ETauWakeUnlock = Some (s', r) ->
+Theorem queue_drained_per_wake f h s' r :
+  step (run (initf f) h) ETauWakeUnlock = Some (s', r) ->
   queue s' = [] /\ pc s' = PWakeCb /\
   forall c x, nth_error (ctxs s') c = Some x -> k_loc x <> LQueue.
 Proof.
-  intros H. destruct (run_J h init init_J) as [HJ _]. set (s := run init h) in *.
+  intros H. destruct (run_J h (initf f) (initf_J f)) as [HJ _]. set (s := run (initf f) h) in *.
   unfold step in H. destruct (spc_eqb (pc s) PWake); [|discriminate].
   destruct (queue s) eqn:Eq; [|discriminate]. inversion H; subst; clear H. simpl.
   split; [exact Eq|]. split; [reflexivity|]. intros c x Hx Hl.
@@ -490,6 +498,7 @@ Qed.
    queue order before on_wake can end *)
 Example wake_drains_burst :
   let h := [EHalloc KConn 1; EHalloc KConn 2; EHalloc KConn 3; EHand 0; EHand 1; EHand 2;
+            ESigHand 0; ESigHand 2; ESigClear; ESigHand 1 (* lands after the clear-up: sets the signal again *);
             ETauWakeBegin; EReg 0 true; EAddctx 0; ETauWakeUnlock (* not enabled: skipped *);
             EReg 2 true (* not the head: skipped *); EReg 1 true; EAddctx 1; EReg 2 false; ETauRel (* count 0: not silent *);
             ERelease 2; EFdclose 2; EFree 2; ETauWakeUnlock; EWake] in
